@@ -16,13 +16,18 @@ fn filter03(s: Stat) -> bool {
 pub fn plan03(tier: Tier) -> Plan {
     let q = tier == Tier::Quick;
     let mut checks: Vec<Box<dyn Check>> = Vec::new();
-    for (a, dq, dt) in [("small", 7, 9), ("dec", 7, 9), ("tail", 7, 10), ("off9", 7, 10), ("negoff", 8, 11), ("ap", 7, 10), ("two01", 10, 16), ("two13", 10, 16), ("two9", 10, 16)] {
+    for (a, dq, dt) in [("small", 7, 9), ("dec", 7, 9), ("tail", 7, 10), ("off9", 7, 10), ("negoff", 8, 11), ("ap", 7, 10), ("tiny", 6, 8), ("large", 6, 8), ("two01", 10, 16), ("two13", 10, 16), ("two9", 10, 16)] {
         let d = if q { dq } else { dt };
         checks.push(add_check::<Skewness>("C03", a, d, filter03, false));
         checks.push(add_check::<Kurtosis>("C03", a, d, filter03, false));
     }
+    let (n, k) = if q { (2_000u64, 3usize) } else { (100_000, 4) };
+    for a in ["small", "dec", "off9", "tail", "tiny"] {
+        checks.push(super::longrun::lasso::<Skewness>("C03", a, k, 3, n, filter03, false));
+        checks.push(super::longrun::lasso::<Kurtosis>("C03", a, k, 3, n, filter03, false));
+    }
     Plan {
-        rule: "every add-sequence over small, dec, tail, off9, negoff, ap and three two-point alphabets up to the depth bound for Skewness and Kurtosis; every prefix with n >= 1 judged (skewness, kurtosis, mean, variances, error_mean) against exact rational central moments under the section-4 envelopes; non-trivial = multiset inside the envelope domain".into(),
+        rule: "long streams as a finite family (every word of length <= 3 over 3-/4-letter sub-alphabets repeated to n = 2000 / 1e5, judged at n = 1..16, around powers of two and at the end); AND every add-sequence over small, dec, tail, off9, negoff, ap and three two-point alphabets up to the depth bound for Skewness and Kurtosis; every prefix with n >= 1 judged (skewness, kurtosis, mean, variances, error_mean) against exact rational central moments under the section-4 envelopes; non-trivial = multiset inside the envelope domain".into(),
         assumptions: common_assumptions(),
         checks,
     }
@@ -33,7 +38,7 @@ fn filter04(s: Stat) -> bool {
 }
 
 fn fam04<T: Uni>(checks: &mut Vec<Box<dyn Check>>, q: bool) {
-    for (a, dq, dt) in [("small", 6, 8), ("dec", 6, 8), ("tail", 6, 9), ("off9", 6, 9), ("off11", 6, 8), ("negoff", 7, 10), ("mixed", 6, 8), ("ap", 6, 9), ("two13", 9, 14)] {
+    for (a, dq, dt) in [("small", 6, 8), ("dec", 6, 8), ("tail", 6, 9), ("off9", 6, 9), ("off11", 6, 8), ("negoff", 7, 10), ("mixed", 6, 8), ("ap", 6, 9), ("tiny", 5, 7), ("large", 5, 7), ("two13", 9, 14)] {
         let d = if q { dq } else { dt };
         checks.push(add_check::<T>("C04", a, d, filter04, true));
     }
@@ -48,6 +53,12 @@ pub fn plan04(tier: Tier) -> Plan {
     fam04::<M6>(&mut checks, q);
     fam04::<M8>(&mut checks, q);
     fam04::<M10>(&mut checks, q);
+    let (n, k) = if q { (2_000u64, 3usize) } else { (100_000, 4) };
+    for a in ["small", "dec", "off9", "tail"] {
+        checks.push(super::longrun::lasso::<Moments4>("C04", a, k, 3, n, filter04, true));
+        checks.push(super::longrun::lasso::<M6>("C04", a, k, 3, n, filter04, true));
+        checks.push(super::longrun::lasso::<M10>("C04", a, k, if q { 2 } else { 3 }, n, filter04, true));
+    }
     for a in ["small", "off9", "tail", "dec"] {
         checks.push(Box::new(Agree { alpha: a, depth: if q { 6 } else { 8 } }));
     }
